@@ -16,7 +16,7 @@ void aws_fatal_assert(const char *cond_str, const char *file, int line) {
 }
 
 #define GHOSTS() do { AL_GHOST_RESET(); g_on = true; g_k = nondet_size_t(); g_old = nondet_u8(); g_j = nondet_size_t(); g_src = nondet_u8(); \
-                      g_va = nondet_u8(); g_vb = nondet_u8(); g_last_error = nondet_int(); g_raise_count = nondet_int(); } while (0)
+                      g_va = nondet_u8(); g_vb = nondet_u8(); g_mm = nondet_size_t(); g_last_error = nondet_int(); g_raise_count = nondet_int(); } while (0)
 #define SMALL 1000 /* canary split only: "small" vs "huge" index */
 
 /* ---------------------------------------------------------------- observers */
